@@ -17,20 +17,99 @@ import (
 // Accepted form: key = make([]byte, len(pk)+len(G)); copy(key, pk); copy(key[len(pk):], G)
 // It returns the public-key source value and the action global.
 func keyBuild(fn *ssa.Function, key ssa.Value) (pk ssa.Value, action *ssa.Global, why string) {
+	pk, av, why := keyBuildVal(fn, key, 0)
+	if why != "" {
+		return nil, nil, why
+	}
+	ld, ok := av.(*ssa.UnOp)
+	if !ok {
+		return nil, nil, "key suffix is not a load of a package-level action value"
+	}
+	g, ok := ld.X.(*ssa.Global)
+	if !ok {
+		return nil, nil, "key suffix is not a load of a package-level action value"
+	}
+	return pk, g, ""
+}
+
+// keyBuildVal returns the prefix and suffix values of the key in fn's frame; a key produced by a module helper
+// (single return of a freshly assembled key) is followed into the helper and its parameters are mapped back to the
+// call's arguments.
+func keyBuildVal(fn *ssa.Function, key ssa.Value, depth int) (pk ssa.Value, suffix ssa.Value, why string) {
 	root := sliceRootExact(key)
+	if call, ok := root.(*ssa.Call); ok && depth < 3 {
+		callee := call.Call.StaticCallee()
+		if callee != nil && callee.Blocks != nil && prog.InModule(callee) && !call.Call.IsInvoke() {
+			rets := an.Returns(callee)
+			if len(rets) == 1 && len(rets[0].Results) == 1 {
+				p2, s2, why := keyBuildVal(callee, an.Result(rets[0], 0), depth+1)
+				if why != "" {
+					return nil, nil, why
+				}
+				mapBack := func(v ssa.Value) ssa.Value {
+					if q, ok := v.(*ssa.Parameter); ok {
+						for i, qq := range callee.Params {
+							if qq == q && i < len(call.Call.Args) {
+								return call.Call.Args[i]
+							}
+						}
+					}
+					return v
+				}
+				if _, isParam := p2.(*ssa.Parameter); !isParam {
+					return nil, nil, "the key helper does not build the key from its own parameter: " + an.Term(p2)
+				}
+				return mapBack(p2), mapBack(s2), ""
+			}
+		}
+	}
 	mk, ok := root.(*ssa.MakeSlice)
 	if !ok {
 		return nil, nil, "key is not a freshly made slice: " + an.Term(key)
 	}
-	return keyBuildOf(fn, mk, func(v ssa.Value) bool { return sliceRootExact(v) == ssa.Value(mk) }, func(v ssa.Value) bool { return sliceRoot(v) == ssa.Value(mk) })
+	return keyBuildOfVal(fn, mk, func(v ssa.Value) bool { return sliceRootExact(v) == ssa.Value(mk) }, func(v ssa.Value) bool { return sliceRoot(v) == ssa.Value(mk) })
 }
 
 // keyBuildOf is keyBuild for a key identified by predicates: isKey(v) - v is the whole key; inKey(v) - v aliases (part of) the key.
 func keyBuildOf(fn *ssa.Function, mk *ssa.MakeSlice, isKey, inKey func(ssa.Value) bool) (pk ssa.Value, action *ssa.Global, why string) {
+	pk, av, why := keyBuildOfVal(fn, mk, isKey, inKey)
+	if why != "" {
+		return nil, nil, why
+	}
+	if ld, ok := av.(*ssa.UnOp); ok {
+		if g, ok := ld.X.(*ssa.Global); ok {
+			return pk, g, ""
+		}
+	}
+	return nil, nil, "key suffix is not a load of a package-level action value"
+}
+
+func keyBuildOfVal(fn *ssa.Function, mk *ssa.MakeSlice, isKey, inKey func(ssa.Value) bool) (pk ssa.Value, action ssa.Value, why string) {
 	var prefix ssa.Value
-	var suffix *ssa.Global
+	var suffix ssa.Value
 	var suffixLow ssa.Value
 	n := 0
+	isActionVal := func(v ssa.Value) bool {
+		if ld, ok := v.(*ssa.UnOp); ok {
+			_, isG := ld.X.(*ssa.Global)
+			return isG
+		}
+		_, isP := v.(*ssa.Parameter)
+		return isP
+	}
+	sameAction := func(a, b ssa.Value) bool {
+		if a == b {
+			return true
+		}
+		la, ok1 := a.(*ssa.UnOp)
+		lb, ok2 := b.(*ssa.UnOp)
+		if ok1 && ok2 {
+			ga, ok1 := la.X.(*ssa.Global)
+			gb, ok2 := lb.X.(*ssa.Global)
+			return ok1 && ok2 && ga == gb
+		}
+		return false
+	}
 	for _, b := range fn.Blocks {
 		for _, ins := range b.Instrs {
 			call, ok := ins.(*ssa.Call)
@@ -54,15 +133,10 @@ func keyBuildOf(fn *ssa.Function, mk *ssa.MakeSlice, isKey, inKey func(ssa.Value
 					return nil, nil, "unrecognised copy into the key"
 				}
 				suffixLow = sl.Low
-				ld, ok := src.(*ssa.UnOp)
-				if !ok {
+				if !isActionVal(src) {
 					return nil, nil, "key suffix is not a load of a package-level action value"
 				}
-				g, ok := ld.X.(*ssa.Global)
-				if !ok {
-					return nil, nil, "key suffix is not a load of a package-level action value"
-				}
-				suffix = g
+				suffix = src
 			} else if isKey(dst) {
 				prefix = src
 			} else {
@@ -98,7 +172,7 @@ func keyBuildOf(fn *ssa.Function, mk *ssa.MakeSlice, isKey, inKey func(ssa.Value
 	if !ok1 || !ok2 || !isBuiltin(l1, "len") || !isBuiltin(l2, "len") {
 		return nil, nil, "key length is not len(pubKey)+len(action)"
 	}
-	okLen := (sameValue(l1.Call.Args[0], prefix) && isLoadOfGlobal(l2.Call.Args[0], suffix)) || (sameValue(l2.Call.Args[0], prefix) && isLoadOfGlobal(l1.Call.Args[0], suffix))
+	okLen := (sameValue(l1.Call.Args[0], prefix) && sameAction(l2.Call.Args[0], suffix)) || (sameValue(l2.Call.Args[0], prefix) && sameAction(l1.Call.Args[0], suffix))
 	if !okLen {
 		return nil, nil, "key length is not len(pubKey)+len(action)"
 	}
